@@ -18,7 +18,6 @@ import (
 	"go/ast"
 	"go/types"
 	"path/filepath"
-	"strings"
 
 	"golang.org/x/tools/go/loader"
 )
@@ -163,9 +162,6 @@ func (c *call) HasUndefined() bool {
 				return true
 			}
 		}
-		if strings.Index(c.Args[i].String(), "invalid type") >= 0 {
-			return true
-		}
 		if hasInvalid(c.Args[i], make(map[types.Type]bool)) {
 			return true
 		}
@@ -218,6 +214,11 @@ func hasInvalid(typ types.Type, visited map[types.Type]bool) bool {
 	case *types.Signature:
 		return hasInvalid(t.Params(), visited) || hasInvalid(t.Results(), visited)
 	case *types.Interface:
+		for i := 0; i < t.NumMethods(); i++ {
+			if hasInvalid(t.Method(i).Type(), visited) {
+				return true
+			}
+		}
 		return false
 	}
 	if u := typ.Underlying(); u != typ {
